@@ -1,4 +1,144 @@
-From Dnp3V Require Import App.ConvertProofs.
-Theorem C10_placeholder : length Conversions.recipes = length Conversions.recipes.
-Proof. exact cv_placeholder. Qed.
-Print Assumptions C10_placeholder.
+(* Properties/C10.v — statements only; every proof is `exact <lemma>`. *)
+From Dnp3V Require Import Base.Bytes gen.Conversions App.FloatBits App.Convert App.FloatBitsProofs App.ConvertProofs.
+Open Scope N_scope.
+
+(* P1 trip_exact: for every measurement type and every static or event variation (all conversion
+   recipes regenerated from app/gen/conversion.rs) that is able to represent the measurement, the object
+   bytes written by the outstation decode on the master to the same value, flags and time with quality
+   (for the binary types the master's flag octet carries the state in bits 7/6: wire_flags) *)
+Theorem C10_trip_exact : forall r m cto d,
+  In r recipes -> wf_meas (rc_type r) m -> representable r m -> d < 65536 ->
+  (rc_to_time r = Some ToTimeCto -> exists c, cto = Some c /\ cto_diff c (event_time m) = Some d) ->
+  decode_obj r cto (encode_obj r m d) = mk_cmeas (cm_value m) (wire_flags (rc_type r) m) (cm_time m) [].
+Proof. exact trip_exact. Qed.
+Print Assumptions C10_trip_exact.
+
+(* P1 trip_narrowing, part 1: for EVERY measurement (representable or not) what arrives is the
+   `narrowed` measurement: counters keep value mod 2^16, analogs go through to_i16/to_i32/to_f32,
+   variations without flag octet arrive as ONLINE, variations without time drop only the time, absolute
+   times lose only the synchronisation quality *)
+Theorem C10_trip_narrowing : forall r m cto d,
+  In r recipes -> wf_meas (rc_type r) m -> d < 65536 ->
+  decode_obj r cto (encode_obj r m d) = narrowed r m cto d.
+Proof. exact trip_general. Qed.
+Print Assumptions C10_trip_narrowing.
+
+(* P1 trip_narrowing, part 2: to_i16 on every f64 bit pattern: NaN -> 0 + OVER_RANGE (the F13 fix), below
+   the range -> MIN + OVER_RANGE, above -> MAX + OVER_RANGE, otherwise truncation toward zero with the
+   flags unchanged and NO clamping (the cast cannot wrap or saturate silently) *)
+Theorem C10_to_i16_saturates : forall m,
+  let v := cm_value m in
+  (fb64_is_nan v = true -> to_i16 m = (with_over_range (cm_flags m), 0%Z)) /\
+  (fb64_is_nan v = false -> fb64_lt v fb64_i16_min = true -> to_i16 m = (with_over_range (cm_flags m), i16_min)) /\
+  (fb64_is_nan v = false -> fb64_lt v fb64_i16_min = false -> fb64_gt v fb64_i16_max = true ->
+     to_i16 m = (with_over_range (cm_flags m), i16_max)) /\
+  (fb64_is_nan v = false -> fb64_lt v fb64_i16_min = false -> fb64_gt v fb64_i16_max = false ->
+     to_i16 m = (cm_flags m, fb64_trunc v) /\ (i16_min <= fb64_trunc v <= i16_max)%Z).
+Proof. exact to_i16_spec. Qed.
+Print Assumptions C10_to_i16_saturates.
+
+Theorem C10_to_i32_saturates : forall m,
+  let v := cm_value m in
+  (fb64_is_nan v = true -> to_i32 m = (with_over_range (cm_flags m), 0%Z)) /\
+  (fb64_is_nan v = false -> fb64_lt v fb64_i32_min = true -> to_i32 m = (with_over_range (cm_flags m), i32_min)) /\
+  (fb64_is_nan v = false -> fb64_lt v fb64_i32_min = false -> fb64_gt v fb64_i32_max = true ->
+     to_i32 m = (with_over_range (cm_flags m), i32_max)) /\
+  (fb64_is_nan v = false -> fb64_lt v fb64_i32_min = false -> fb64_gt v fb64_i32_max = false ->
+     to_i32 m = (cm_flags m, fb64_trunc v) /\ (i32_min <= fb64_trunc v <= i32_max)%Z).
+Proof. exact to_i32_spec. Qed.
+Print Assumptions C10_to_i32_saturates.
+
+Theorem C10_to_f32_saturates : forall m,
+  let v := cm_value m in
+  (fb64_is_nan v = true -> to_f32 m = (cm_flags m, fb64_to_f32 v) /\ fb32_is_nan (fb64_to_f32 v) = true) /\
+  (fb64_is_nan v = false -> fb64_lt v fb64_f32_min = true -> to_f32 m = (with_over_range (cm_flags m), fb32_min_bits)) /\
+  (fb64_is_nan v = false -> fb64_lt v fb64_f32_min = false -> fb64_gt v fb64_f32_max = true ->
+     to_f32 m = (with_over_range (cm_flags m), fb32_max_bits)) /\
+  (fb64_is_nan v = false -> fb64_lt v fb64_f32_min = false -> fb64_gt v fb64_f32_max = false ->
+     to_f32 m = (cm_flags m, fb64_to_f32 v) /\ fb32_exp (fb64_to_f32 v) < 255 /\
+     fb32_sign (fb64_to_f32 v) = fb64_sign v).
+Proof. exact to_f32_spec. Qed.
+Print Assumptions C10_to_f32_saturates.
+
+(* OVER_RANGE is exactly bit 5: nothing else of the flag octet changes *)
+Theorem C10_over_range_is_bit5 : forall f, f < 256 ->
+  with_over_range f < 256 /\ with_over_range f = (if N.testbit f 5 then f else f + 32) /\
+  without f 128 = f mod 128 /\ without f 192 = f mod 64.
+Proof. exact flag_octet_facts. Qed.
+Print Assumptions C10_over_range_is_bit5.
+
+(* P1 cto_exact + index_and_flags_not_crossed (events): for every list of events of the event variations
+   of the outstation (any order, any times, synchronised or not, as many g51v1/g51v2 headers as the
+   write_cto rule needs) the i-th measurement handed to the handler is the i-th event: its index, its
+   own value and flags, and for g2v3/g4v3 exactly its absolute time and quality *)
+Theorem C10_cto_exact : forall req evs, Forall ev_wf (map (event_entry req) evs) ->
+  meas_of (extract None (write_events req evs)) = map ev_expect (map (event_entry req) evs).
+Proof. exact events_exact. Qed.
+Print Assumptions C10_cto_exact.
+
+(* the write_cto rule and Time::checked_add are inverse *)
+Theorem C10_cto_offset_inverse : forall c tm d, snd tm <= timestamp_max -> cto_diff c tm = Some d ->
+  d < 65536 /\ cto_add (Some c) d = Some tm.
+Proof. exact cto_diff_add. Qed.
+Print Assumptions C10_cto_offset_inverse.
+
+(* widening an f32 to f64 and narrowing again is the identity on every finite f32 pattern, and the
+   widened value passes the range checks *)
+Theorem C10_f32_round_trip : forall x, x < p32 -> fb32_exp x < 255 ->
+  fb64_to_f32 (fb32_to_f64 x) = x /\ fb64_is_nan (fb32_to_f64 x) = false /\
+  fb64_lt (fb32_to_f64 x) fb64_f32_min = false /\ fb64_gt (fb32_to_f64 x) fb64_f32_max = false.
+Proof. exact f32_round_trip. Qed.
+Print Assumptions C10_f32_round_trip.
+
+(* ---- non-vacuity ---------------------------------------------------------------------------------- *)
+(* 1e300 through g30v2 (i16 with flags): saturates to 32767 and gains exactly OVER_RANGE *)
+Example C10_ex_saturate_g30v2 :
+  let m := mk_cmeas 9094988921128908188 1 None [] in   (* 0x7E37E43C8800759C = 1e300 *)
+  find_recipe 30 2 = Some (mk_recipe AI 30 2 [(FFlags, WU8); (FValue, WI16)] (Some ToFlagsConv) (Some ToValI16) None
+                              FromValAsF64 FromFlagsNew FromTimeNone) /\
+  to_i16 m = (33, 32767%Z) /\
+  match find_recipe 30 2 with
+  | Some r => encode_obj r m 0 = [33; 255; 127] /\ decode_obj r None (encode_obj r m 0) = mk_cmeas fb64_i16_max 33 None []
+  | None => False
+  end.
+Proof. vm_compute. repeat split; reflexivity. Qed.
+
+(* the same value through g30v4 (i16 WITHOUT flag octet): 32767 arrives as a plain ONLINE value - the
+   open finding over-range-unflagged/no-flag-variation *)
+Example C10_ex_saturate_g30v4_unflagged :
+  let m := mk_cmeas 9094988921128908188 1 None [] in
+  match find_recipe 30 4 with
+  | Some r => encode_obj r m 0 = [255; 127] /\ decode_obj r None (encode_obj r m 0) = mk_cmeas fb64_i16_max 1 None []
+  | None => False
+  end.
+Proof. vm_compute. repeat split; reflexivity. Qed.
+
+(* F13 after the fix: NaN through g30v2 is flagged *)
+Example C10_ex_nan_flagged :
+  to_i16 (mk_cmeas 9221120237041090560 1 None []) = (33, 0%Z).   (* 0x7FF8000000000000 *)
+Proof. vm_compute. reflexivity. Qed.
+
+(* a representable measurement: 1.5 through g32v7 (f32 with flags and time) *)
+Example C10_ex_representable :
+  let m := mk_cmeas 4609434218613702656 1 (Some (Sync, 1000)) [] in  (* 0x3FF8000000000000 = 1.5 *)
+  match find_recipe 32 7 with
+  | Some r => In r recipes /\ wf_meas (rc_type r) m /\
+              decode_obj r None (encode_obj r m 0) = m
+  | None => False
+  end.
+Proof.
+  cbv zeta. vm_compute find_recipe. cbv iota beta.
+  split; [vm_compute; tauto|]. split; [vm_compute; repeat split; try discriminate; reflexivity|].
+  vm_compute. reflexivity.
+Qed.
+
+(* a CTO sequence: gap 65535 stays under the header, 65536 and an unsynchronised time start new ones *)
+Example C10_ex_cto_sequence :
+  let ev := fun t => mk_cpoint 3 2 3 (mk_cmeas 1 1 (Some t) []) in
+  write_events 0 [ev (Sync, 1000); ev (Sync, 66535); ev (Sync, 66536); ev (Unsync, 66536)] =
+  [HCto 1 1000; HPrefix 2 3 [(3, [129; 0; 0]); (3, [129; 255; 255])];
+   HCto 1 66536; HPrefix 2 3 [(3, [129; 0; 0])];
+   HCto 2 66536; HPrefix 2 3 [(3, [129; 0; 0])]] /\
+  map (fun x => cm_time (snd x)) (meas_of (extract None (write_events 0 [ev (Sync, 1000); ev (Sync, 66535); ev (Sync, 66536); ev (Unsync, 66536)]))) =
+  [Some (Sync, 1000); Some (Sync, 66535); Some (Sync, 66536); Some (Unsync, 66536)].
+Proof. vm_compute. split; reflexivity. Qed.
